@@ -45,13 +45,12 @@ impl<'a> Protocol<'a> for DP {
 }
 
 /// The writer owns three 64 KiB buffers; building it by value moves ~200 KB through CBMC's array
-/// theory (> 12 GB). It is therefore built in place in zeroed static storage: an all-zero
+/// theory (> 12 GB), and a zeroed *static* of that size stalls CBMC's instrumentation passes. It is
+/// therefore built in place in zero-initialised heap storage (one calloc object): an all-zero
 /// `ArrayVec<[u8; N]>` is the empty vector, the small fields are written individually.
-static mut WRITER_MEM: core::mem::MaybeUninit<DemoWriter<'static, DP>> = core::mem::MaybeUninit::zeroed();
-
 fn new_writer() -> &'static mut DemoWriter<'static, DP> {
     unsafe {
-        let p: *mut DemoWriter<'static, DP> = (*core::ptr::addr_of_mut!(WRITER_MEM)).as_mut_ptr();
+        let p = std::alloc::alloc_zeroed(std::alloc::Layout::new::<DemoWriter<'static, DP>>()) as *mut DemoWriter<'static, DP>;
         crate::Writer::verif_init_in_place(core::ptr::addr_of_mut!((*p).inner), None);
         core::ptr::addr_of_mut!((*p).last_tick).write(-1);
         core::ptr::addr_of_mut!((*p).last_keyframe).write(None);
@@ -65,7 +64,7 @@ fn new_writer() -> &'static mut DemoWriter<'static, DP> {
 
 #[kani::proof]
 #[kani::unwind(8)]
-#[kani::stub(libtw2_huffman::Huffman::compress_impl_unsafe, libtw2_huffman::Huffman::verif_compress_oracle)]
+#[kani::stub(crate::writer::Writer::write_chunk_impl, crate::writer::Writer::verif_write_chunk_impl_stub)]
 fn c15_ddnet_tick_refusal() {
     // tick numbers that do not strictly increase are refused with an error, not a panic, and the
     // recording stays usable afterwards
@@ -73,38 +72,97 @@ fn c15_ddnet_tick_refusal() {
     let t2: i32 = kani::any();
     kani::assume(t1 >= 0 && t2 <= t1);
     let w = new_writer();
-    assert!(w.write_snap(t1, core::iter::empty::<(&DObj, u16)>()).is_ok());
+    // results are leaked, not dropped: the drop glue of the (recursive) binrw::Error inside
+    // WriteError is unrolled by symbolic execution otherwise (> 8 GB)
+    let r1 = w.write_snap(t1, core::iter::empty::<(&DObj, u16)>());
+    let ok1 = r1.is_ok();
+    core::mem::forget(r1);
+    assert!(ok1);
     let r = w.write_snap(t2, core::iter::empty::<(&DObj, u16)>());
-    assert!(matches!(r, Err(WriteError::TooLowTickNumber)));
+    let refused = matches!(r, Err(WriteError::TooLowTickNumber));
+    core::mem::forget(r);
+    assert!(refused);
+    // the recording stays usable afterwards
+    if t1 < i32::MAX {
+        let r3 = w.write_snap(t1 + 1, core::iter::empty::<(&DObj, u16)>());
+        let ok3 = r3.is_ok();
+        core::mem::forget(r3);
+        assert!(ok3);
+    }
     kani::cover!(t2 == t1);
     kani::cover!(t2 < 0);
 }
 
 #[kani::proof]
 #[kani::unwind(8)]
-#[kani::stub(libtw2_huffman::Huffman::compress_impl_unsafe, libtw2_huffman::Huffman::verif_compress_oracle)]
+#[kani::stub(crate::writer::Writer::write_chunk_impl, crate::writer::Writer::verif_write_chunk_impl_stub)]
 fn c15_ddnet_first_tick_negative() {
     let t: i32 = kani::any();
     kani::assume(t < 0);
     let w = new_writer();
     let r = w.write_snap(t, core::iter::empty::<(&DObj, u16)>());
-    assert!(matches!(r, Err(WriteError::TooLowTickNumber)));
+    let refused = matches!(r, Err(WriteError::TooLowTickNumber));
+    core::mem::forget(r);
+    assert!(refused);
 }
 
 #[kani::proof]
 #[kani::unwind(8)]
-#[kani::stub(libtw2_huffman::Huffman::compress_impl_unsafe, libtw2_huffman::Huffman::verif_compress_oracle)]
+#[kani::stub(crate::writer::Writer::write_chunk_impl, crate::writer::Writer::verif_write_chunk_impl_stub)]
 fn c15_ddnet_increasing_ticks_accepted() {
     // strictly increasing ticks are accepted on both sides of the 250-tick key-frame interval
     let t1: i32 = kani::any();
     let t2: i32 = kani::any();
     kani::assume(t1 >= 0 && t2 > t1);
     let w = new_writer();
-    assert!(w.write_snap(t1, core::iter::empty::<(&DObj, u16)>()).is_ok());
-    assert!(w.write_snap(t2, core::iter::empty::<(&DObj, u16)>()).is_ok());
+    let r1 = w.write_snap(t1, core::iter::empty::<(&DObj, u16)>());
+    let ok1 = r1.is_ok();
+    core::mem::forget(r1);
+    let r2 = w.write_snap(t2, core::iter::empty::<(&DObj, u16)>());
+    let ok2 = r2.is_ok();
+    core::mem::forget(r2);
+    assert!(ok1 && ok2);
     assert!(w.last_tick == t2);
     let kf = t2 as i64 - t1 as i64 > 250;
     assert!(w.last_keyframe == Some(if kf { t2 } else { t1 }));
     kani::cover!(kf);
     kani::cover!(!kf);
+}
+
+fn writer_after_tick(last: i32, last_keyframe: Option<i32>) -> &'static mut DemoWriter<'static, DP> {
+    // the state write_snap leaves behind after a successful call for tick `last` (last == -1: fresh
+    // writer): last_tick == last and the raw writer's prev_tick == Some(last) (write_snap's last
+    // statements / write_tick's last statement), built field by field
+    let w = new_writer();
+    w.last_tick = last;
+    w.last_keyframe = last_keyframe;
+    w.inner.verif_set_prev_tick(if last >= 0 { Some(last) } else { None });
+    w
+}
+
+#[kani::proof]
+#[kani::unwind(8)]
+#[kani::stub(crate::writer::Writer::write_chunk_impl, crate::writer::Writer::verif_write_chunk_impl_stub)]
+fn c15_ddnet_refuses_non_increasing_tick() {
+    // one write_snap call from the state after any tick `last` (or a fresh writer): a tick that does
+    // not strictly increase (or is negative) is refused with TooLowTickNumber - no panic - and the
+    // writer state is untouched, so the recording stays usable
+    let last: i32 = kani::any();
+    kani::assume(last >= -1);
+    let kf: Option<i32> = if last >= 0 { Some(kani::any()) } else { None };
+    if let Some(k) = kf {
+        kani::assume(0 <= k && k <= last);
+    }
+    let t: i32 = kani::any();
+    kani::assume(t <= last || t < 0);
+    let w = writer_after_tick(last, kf);
+    let r = w.write_snap(t, core::iter::empty::<(&DObj, u16)>());
+    let refused = matches!(r, Err(WriteError::TooLowTickNumber));
+    core::mem::forget(r);
+    assert!(refused);
+    assert!(w.last_tick == last && w.last_keyframe == kf);
+    assert!(w.inner.verif_prev_tick() == if last >= 0 { Some(last) } else { None });
+    kani::cover!(t == last && last >= 0, "same tick again");
+    kani::cover!(last == -1 && t == -1, "fresh writer, tick -1");
+    kani::cover!(t < last && t >= 0, "lower tick");
 }
